@@ -102,5 +102,6 @@ main (int argc, char *argv[])
 #endif
 
     eav_free (&eav);
+    sanitize_cleanup ();
     return 0;
 }
